@@ -1,6 +1,6 @@
 """C06 - no client input can crash, kill, corrupt or wedge the daemon (DESIGN §5 C06).
    Engine R-CLIENT (also used by C02 C03 C04 C15): the request/reply layer of client.c against Model/Client.v."""
-import os, sys, json
+import os, sys, json, re
 from concurrent.futures import ThreadPoolExecutor
 import vlib, pmgen, pmsim
 
@@ -39,6 +39,10 @@ JUNK = [b"", b" ", b"\t", b"foo", b"on", b"off", b"ON n0", b"On n0", b"status", 
 for _w in [b"on", b"off", b"cycle", b"reset", b"flash", b"unflash", b"status", b"beacon", b"temp", b"device", b"exprange", b"telemetry", b"nodes", b"help"]:
     for _bad in [b"a[2-", b"b[1", b"a[3-1]", b"[", b"n[1,2", b"n[1-2]x[", b",", b"n0,", b"zz[1-2]"]:
         JUNK.append(_w + b" " + _bad)
+
+# zero-padded numeric parts wider than any fixed scratch buffer (the width a client types is the width the names are printed with)
+for _n in (17, 21, 24, 33, 70):
+    JUNK += [b"status t[" + b"0" * _n + b"1]", b"on t" + b"0" * _n + b"1", b"status n[" + b"0" * _n + b"-" + b"0" * (_n - 1) + b"2]"]
 
 LINEMAX = 131072          # cross-checked against Gen/GenConsts.v in correspond()
 
@@ -375,7 +379,8 @@ def run(ctx, V):
     n = 260 if ctx.tier == "quick" else 4000
     scs = [hostile_scenario(ctx.rng) for _ in range(n)]
     pmcheck.MONITORS["c06lines"] = mon_c06_lines
-    pmcheck.run_batch(ctx, V, exe, scs, ["alive", "protocol", "wedge", "c06lines"], "c06")
+    pmcheck.MONITORS["c06halfclose"] = mon_c06_halfclose
+    pmcheck.run_batch(ctx, V, exe, scs, ["alive", "protocol", "wedge", "c06lines", "c06halfclose"], "c06")
 
 
 def mon_c06_lines(sess, sc):
@@ -409,6 +414,35 @@ def mon_c06_lines(sess, sc):
             sl = strip(ln)
             if sl in (b"nodes", b"help") and code != 103:
                 bad.append(("padded-request", "wrong-reply", "client %d: `%s` (raw line %d bytes) was answered %d" % (k, sl.decode(), len(ln), code)))
+    return bad
+
+
+def mon_c06_halfclose(sess, sc):
+    """a client that half-closes (EOF on its sending side) after N complete lines and is later closed BY THE DAEMON (which means the
+    daemon considered everything done) must have received N terminal replies: nothing queued for it may be dropped on the way out"""
+    import pmcheck
+    bad = []
+    if not sess.alive_after_script or sess.overrun or sess.wedged:
+        return bad
+    sent, eof, other = {}, set(), set()
+    for st in sc.script:
+        if st[0] == "send" and st[1] not in eof:
+            sent[st[1]] = sent.get(st[1], b"") + st[2]
+        elif st[0] == "raw":
+            for e in st[1]:
+                m = re.match(r"(EOF|RST|FULLCLOSE) c(\d+)", e)
+                if m: (eof if m.group(1) == "EOF" else other).add(int(m.group(2)))
+    ignored = {int(m.group(1)) for m in (re.match(r"IGNORED EOF c(\d+)", l) for l in sess.sim.trace) if m}
+    for k in sorted(eof - other - ignored):
+        if k not in sess.closed_clients:
+            continue
+        lines = sent.get(k, b"").split(b"\n")[:-1]
+        reps = [r for r in (pmcheck.split_replies(sess.client_out.get(k, b"")) or []) if isinstance(r[0], int)]
+        codes = [r[0] for r in reps]
+        if 208 in codes:
+            continue
+        if len(codes) < len(lines):
+            bad.append(("half-close", "reply-lost", "client %d sent %d complete lines and half-closed; the daemon closed it after only %d terminal replies (%s)" % (k, len(lines), len(codes), codes)))
     return bad
 
 
@@ -457,6 +491,13 @@ def hostile_scenario(rng):
             for cpos in cuts + [len(data)]:
                 extra.append(("send", bad, data[prev:cpos])); prev = cpos
             extra.append(("wait", bad))
+    if rng.random() < 0.3:
+        # `printf 'nodes\nhelp\n' | nc`: lines that are answered at once, and the FIN in the same segment: the replies are queued when the
+        # daemon sees the end-of-file; they must still be written before the client is closed
+        k2 = sc.tags["ncli"] + 1
+        lines2 = b"".join(rng.choice([b"nodes", b"help", b"device", b"bogus", b"on [", b"exprange", b"status zz[1-2]"]) + b"\r\n" for _ in range(rng.randint(1, 4)))
+        extra += [("connect", k2), ("wait", k2), ("send", k2, lines2), ("raw", ["EOF c%d" % k2]), ("sleep", 200000)]
+        sc.tags["eager"] = k2
     if rng.random() < 0.12:
         # a device command and, in the same breath, an over-long line: the 203 overtakes the command's terminal line
         nodes = sc.cfg.all_nodes()
@@ -470,7 +511,7 @@ def hostile_scenario(rng):
     # interleave the hostile client's steps into the healthy script at a random position
     pos = rng.randint(after_connects(sc.script), len(sc.script))
     sc.script[pos:pos] = extra
-    sc.tags["ncli"] = ncli + 1
+    sc.tags["ncli"] = ncli + 1 + (1 if "eager" in sc.tags else 0)
     sc.tags["hostile"] = bad
     return sc
 
